@@ -169,7 +169,7 @@ contract(
         ]),
         "0.0": Loop(inv=_sky_scan_inv),
     },
-    lemmas_at={"after assign use_right #1": ["mul_le2(use_right - cur_left, use_top, use_right - cur_left, bin_height)",
+    lemmas_at={"after assign use_right #2": ["mul_le2(use_right - cur_left, use_top, use_right - cur_left, bin_height)",
                                              "mul_le(bin_height, use_right, bin_width)"],
                "after while #0": ["mul_le(bin_size, bins - 1, n)", "mul_le(bin_height, cur_left, bin_width)"]},
     ensures=[tag("C02", "range", "(bins - 1) * bin_size <= result and result <= (bins - 1) * bin_size + bin_size")],
@@ -191,7 +191,7 @@ contract(
         ]),
         "0.0.0": Loop(inv=_sky_scan_inv),
     },
-    lemmas_at={"after assign use_right #1": ["mul_le2(use_right - cur_left, use_top, use_right - cur_left, bin_height)",
+    lemmas_at={"after assign use_right #2": ["mul_le2(use_right - cur_left, use_top, use_right - cur_left, bin_height)",
                                              "mul_le(bin_height, use_right, bin_width)"],
                "after while #0": ["mul_le(bin_height, cur_left, bin_width)"],
                "after for #0": ["mul_le(bin_size, bins - 1, n)"]},
@@ -377,10 +377,74 @@ lemma("bounds_item_count", {"N": "int", "L": "int", "k": "int", "cnt": "int", "z
       note="BinCountAndLastEmpty / BinCountAndEmpty: every value lies within [lower_bound(), upper_bound()]")
 # value = A*(k-1) + ar with ar = area covered in the last (or in the least covered) bin; sm = smallest item area
 lemma("bounds_area", {"N": "int", "L": "int", "k": "int", "A": "int", "TA": "int", "sm": "int", "ar": "int", "z": "int"},
-      ["N >= 1", "A >= 1", "1 <= L", "L <= k", "k <= N", "1 <= sm", "sm <= ar", "ar <= A", "implies(k == 1, ar == TA)",
+      ["N >= 1", "A >= 1", "1 <= L", "L <= k", "k <= N", "1 <= sm", "sm <= ar", "ar <= A", "implies(k == 1, ar >= TA)",
        "implies(L == 1, TA <= A)", "z == A * (k - 1) + ar"],
       "(TA if L == 1 else (L - 1) * A + sm) <= z and z <= N * A",
-      note="BinCountAndLastSmall / BinCountAndSmall: every value lies within [lower_bound(), upper_bound()]; "
-           "L == 1 implies TA <= A because L >= ceil(TA / A) (C03)")
+      note="BinCountAndLastSmall / BinCountAndSmall (ar = covered area of the bin) and the two skyline objectives (ar = area "
+           "under the skyline of the bin >= its covered area, A1' in lean/A1b.lean): every value lies within "
+           "[lower_bound(), upper_bound()]; L == 1 implies TA <= A because L >= ceil(TA / A) (C03)")
 lemma("bounds_bin_count", {"N": "int", "L": "int", "k": "int"}, ["1 <= L", "L <= k", "k <= N"], "L <= k and k <= N",
       note="BinCount: the value is the bin count itself")
+
+
+# ====================================================================== the skyline value (C02)
+# skyh(y, b, x, k): height of the skyline of bin b at column x, looking at rows 0..k-1 (0 where no item stands);
+# skyarea(y, b, X, n): area under the skyline over the columns 0..X-1.
+spec("covers(y, r, b, x)", "y[r, IDX_BIN] == b and y[r, IDX_LEFT_X] <= x and x < y[r, IDX_RIGHT_X]", ret="bool")
+spec("skyh(y, b, x, k)", "0 if k <= 0 else (max(skyh(y, b, x, k - 1), y[k - 1, IDX_TOP_Y]) if covers(y, k - 1, b, x)"
+     " else skyh(y, b, x, k - 1))", ptypes=["arr2", "int", "int", "int"], qdef=True)
+spec("skyarea(y, b, X, n)", "0 if X <= 0 else skyarea(y, b, X - 1, n) + skyh(y, b, X - 1, n)",
+     ptypes=["arr2", "int", "int", "int"])
+_TOPS = "forall(r, 0, k, y[r, IDX_TOP_Y] >= 0)"
+lemma("sky_nonneg", {"y": "arr2", "b": "int", "c": "int", "R": "int", "k": "int"}, [_TOPS],
+      "forall(x, c, R, skyh(y, b, x, k) >= 0)", induct="k", base="0")
+# no item of the bin starts strictly inside (c, R): whatever covers a column of [c, R) also covers c
+lemma("seg_le", {"y": "arr2", "b": "int", "c": "int", "R": "int", "k": "int"},
+      [_TOPS, "forall(r, 0, k, not (y[r, IDX_BIN] == b and c < y[r, IDX_LEFT_X] and y[r, IDX_LEFT_X] < R))"],
+      "forall(x, c, R, skyh(y, b, x, k) <= skyh(y, b, c, k))", induct="k", base="0")
+# an item of the bin that spans [c, R) lifts the skyline of every column of [c, R) to its top at least
+lemma("seg_ge", {"y": "arr2", "b": "int", "c": "int", "R": "int", "k": "int", "t": "int"},
+      ["0 <= t", "t < k", "y[t, IDX_BIN] == b", "y[t, IDX_LEFT_X] <= c", "y[t, IDX_RIGHT_X] >= R"],
+      "forall(x, c, R, skyh(y, b, x, k) >= y[t, IDX_TOP_Y])", induct="k", base="t + 1")
+lemma("seg_sum", {"y": "arr2", "b": "int", "c": "int", "R": "int", "n": "int", "T": "int"},
+      ["0 <= c", "c <= R", "forall(x, c, R, skyh(y, b, x, n) == T)"],
+      "skyarea(y, b, R, n) == skyarea(y, b, c, n) + (R - c) * T", induct="R", base="c")
+
+
+# value clause of bin_count_and_last_skyline: the sweep adds, segment by segment, exactly the area under the skyline
+_sky_value_scan = [
+    tag("C02", "tallest-so-far", "use_top == skyh(y, use_bin, cur_left, i)"),
+    tag("C02", "tallest-witness", "(wit == -1 and use_top == 0 and use_right == bin_width) or "
+        "(0 <= wit and wit < i and y[wit, IDX_BIN] == use_bin and y[wit, IDX_LEFT_X] <= cur_left and cur_left < y[wit, IDX_RIGHT_X]"
+        " and y[wit, IDX_TOP_Y] == use_top and y[wit, IDX_RIGHT_X] == use_right)"),
+    tag("C02", "next-start", "forall(r, 0, i, implies(y[r, IDX_BIN] == use_bin and y[r, IDX_LEFT_X] > cur_left, y[r, IDX_LEFT_X] >= next_left))"),
+]
+_c = CONTRACTS[OB + "bin_count_and_last_skyline:bin_count_and_last_skyline"]
+_c.ghosts["wit"] = INT
+_c.loops["0"].inv.append(tag("C02", "area-so-far", "area_under_skyline == skyarea(y, use_bin, cur_left, n)"))
+_c.loops["0.0"].inv.extend(_sky_value_scan)
+_c.loops["0.0"].ghost_pre.append("wit = -1")
+_c.ghost_code["after assign use_right #1"] = ["wit = i"]
+# the quantified segment lemmas are handed to the preservation obligations of the sweep loop only (at the end of an
+# iteration cur_left is the right end of the segment that was just added, at_iter(cur_left) its left end); as global
+# facts they would sit in front of every later query of the function and slow the non-linear overflow obligations down
+_SEG = ["seg_le(y, use_bin, at_iter(cur_left), cur_left, n)", "seg_ge(y, use_bin, at_iter(cur_left), cur_left, n, wit)",
+        "sky_nonneg(y, use_bin, at_iter(cur_left), cur_left, n)", "seg_sum(y, use_bin, at_iter(cur_left), cur_left, n, use_top)"]
+_c.loops["0"].lemmas.extend(_SEG)
+_c.ensures.append(tag("C02", "value-is-area-under-the-skyline-of-the-last-bin",
+                      "result == (bins - 1) * bin_size + skyarea(y, bins, bin_width, n) and use_bin == bins"))
+
+# value clause of bin_count_and_lowest_skyline: the same sweep per bin, minimum over the bins 1..bins (capped by the bin area)
+spec("minsky(y, b, W, n, cap)", "cap if b <= 0 else min(minsky(y, b - 1, W, n, cap), skyarea(y, b, W, n))",
+     ptypes=["arr2", "int", "int", "int", "int"])
+_c = CONTRACTS[OB + "bin_count_and_lowest_skyline:bin_count_and_lowest_skyline"]
+_c.ghosts["wit"] = INT
+_c.loops["0"].inv.append(tag("C02", "lowest-so-far", "min_area_under_skyline == minsky(y, use_bin - 1, bin_width, n, bin_size)"))
+_c.loops["0.0"].inv.append(tag("C02", "area-so-far", "area_under_skyline == skyarea(y, use_bin, cur_left, n)"
+                               " and min_area_under_skyline == minsky(y, use_bin - 1, bin_width, n, bin_size)"))
+_c.loops["0.0.0"].inv.extend(_sky_value_scan)
+_c.loops["0.0.0"].ghost_pre.append("wit = -1")
+_c.ghost_code["after assign use_right #1"] = ["wit = i"]
+_c.loops["0.0"].lemmas.extend(_SEG)
+_c.ensures.append(tag("C02", "value-is-area-under-the-lowest-skyline",
+                      "result == (bins - 1) * bin_size + minsky(y, bins, bin_width, n, bin_size)"))
